@@ -469,8 +469,15 @@ const ARGV_POOL: [&str; 26] = [
     "--release", "-vv",
 ];
 
-pub fn plan_env(rng: &mut Rng, feedback: &[String]) -> Vec<(String, String)> {
+pub fn plan_env(rng: &mut Rng, feedback: &[String], dict: &[String]) -> Vec<(String, String)> {
     let mut env: Vec<(String, String)> = Vec::new();
+    // names from the expander's own sources (dictionary): each present with probability 1/2
+    for k in dict {
+        if rng.chance(1, 2) {
+            let v = if rng.chance(1, 4) { "0".to_string() } else { rng.pick(&ENV_VALUES).to_string() };
+            env.push((k.clone(), v));
+        }
+    }
     let n = rng.range(1, 16);
     for _ in 0..n {
         let k = rng.pick(&ENV_NAMES).to_string();
@@ -541,6 +548,119 @@ pub struct PlanOpts {
     pub fs_feedback: Vec<String>,
     pub cwds: Vec<String>,
     pub max_inputs: usize,
+    /// the quick / thorough ultra-marathon world (65536+ expansions in one process) sits at this index
+    pub ultra_index: Option<u64>,
+}
+
+/// One process expanding a power-of-two cycle of inputs 65536 + a few times: every input recurs
+/// at a distance of exactly 2^16 expansions (16-bit generation counters, sequence numbers).
+pub fn plan_ultra_world(ws: u64, corpus: &Corpus, o: &PlanOpts, env: &Env) -> World {
+    let mut rng = Rng::new(ws ^ 0x756c747261);
+    let backend = o.backend.unwrap_or(if rng.chance(1, 2) { Backend::Syn1 } else { Backend::Syn2 });
+    let k = 64usize;
+    // candidates are classified by a trial run: only inputs that get *through attribute parsing*
+    // (accepted, or rejected by validation) are used, so that "number of expansions" and
+    // "number of validations" between two occurrences of an input are the same number
+    let mut cand: Vec<(Item, Class)> = Vec::new();
+    while cand.len() < 320 {
+        let class = CLASSES[rng.below(CLASSES.len() as u64) as usize];
+        let it = gen::generate(&mut rng, corpus, class);
+        // short inputs: this host performs 65k+ expansions
+        if it.render().len() < 700 {
+            cand.push((it, class));
+        }
+    }
+    let cand_texts: Vec<(u32, String)> = cand.iter().enumerate().map(|(i, c)| (i as u32, c.0.render())).collect();
+    let mut trial = HostCfg::reference();
+    trial.events = (0..cand.len() as u32).map(|i| Event::Expand { tid: 0, input: i }).collect();
+    let mut items = Vec::new();
+    let mut classes = Vec::new();
+    if let Ok(log) = run_host(env, backend, Build::Plain, &cand_texts, &trial) {
+        for ob in &log.obs {
+            let validated = ob.verdict == "OK" || (ob.verdict == "ERR" && ob.text.starts_with("Cannot expand o2o macro"));
+            if validated && items.len() < k {
+                items.push(cand[ob.input as usize].0.clone());
+                classes.push(cand[ob.input as usize].1);
+            }
+        }
+    }
+    for c in cand.iter() {
+        if items.len() >= k {
+            break;
+        }
+        items.push(c.0.clone());
+        classes.push(c.1);
+    }
+    // the inputs of this world are renamed apart (every type-like identifier gets a per-input
+    // suffix): between two occurrences of an input nothing else mentions any of its names
+    fn rename_apart(text: &str, tag: usize) -> String {
+        const KEEP: [&str; 30] = ["Self", "Some", "None", "Ok", "Err", "Default", "String", "Vec", "Option", "Box", "Cow", "Unit", "T", "U", "V", "N", "Fn", "Into", "From", "Iterator", "Item", "Clone", "Copy", "PartialEq", "Send", "Sized", "BTreeMap", "K", "Result", "TryInto"];
+        let b: Vec<char> = text.chars().collect();
+        let mut out = String::with_capacity(text.len() + 64);
+        let mut i = 0;
+        let mut in_str = false;
+        while i < b.len() {
+            let c = b[i];
+            if c == '"' {
+                in_str = !in_str;
+            }
+            if !in_str && (c.is_alphabetic() || c == '_') && (i == 0 || !(b[i - 1].is_alphanumeric() || b[i - 1] == '_' || b[i - 1] == '\'' || b[i - 1] == '#')) {
+                let mut j = i;
+                while j < b.len() && (b[j].is_alphanumeric() || b[j] == '_') {
+                    j += 1;
+                }
+                let id: String = b[i..j].iter().collect();
+                out.push_str(&id);
+                if c.is_uppercase() && !KEEP.contains(&id.as_str()) {
+                    out.push_str(&format!("U{}", tag));
+                }
+                i = j;
+            } else {
+                out.push(c);
+                i += 1;
+            }
+        }
+        out
+    }
+    let texts: Vec<(u32, String)> = items.iter().enumerate().map(|(i, it)| (i as u32, rename_apart(&it.render(), i))).collect();
+    // (the editable models are kept in step so that the minimiser shrinks what was executed)
+    for (i, it) in items.iter_mut().enumerate() {
+        it.raw = Some(texts[i].1.clone());
+    }
+    let mut reference = HostCfg::reference();
+    for i in 0..k {
+        reference.events.push(Event::Expand { tid: 0, input: i as u32 });
+    }
+    // fillers: inputs that share no name with anything above
+    let n_fill = 8usize;
+    let mut texts = texts;
+    for i in 0..n_fill {
+        let t = match i % 4 {
+            0 => format!("#[map(FillDto{0})]\nstruct Fill{0} {{ x: i32 }}\n", i),
+            1 => format!("#[from_owned(FillDto{0})]\n#[owned_into(FillDto{0})]\nstruct Fill{0}(i32, String);\n", i),
+            2 => format!("#[map(FillDto{0})]\n#[map(FillDto{0})]\n#[where_clause(FillNope{0}| T: Clone)]\nstruct Fill{0} {{ x: i32 }}\n", i),
+            _ => format!("#[map(FillDto{0})]\nenum Fill{0} {{ A, B(i32) }}\n", i),
+        };
+        texts.push(((k + i) as u32, t));
+    }
+    let mut ultra = HostCfg::reference();
+    // every input once, then exactly as many unrelated expansions as it takes for each input
+    // to recur at a distance of 2^16 without having been touched in between, then a few laps
+    for i in 0..k {
+        ultra.events.push(Event::Expand { tid: 0, input: i as u32 });
+    }
+    for n in 0..(65536 - k) {
+        ultra.events.push(Event::Expand { tid: 0, input: (k + n % n_fill) as u32 });
+    }
+    let laps = rng.range(1, 3);
+    for n in 0..(k * laps) {
+        ultra.events.push(Event::Expand { tid: 0, input: (n % k) as u32 });
+    }
+    // the reference host knows the fillers too
+    for i in 0..n_fill {
+        reference.events.push(Event::Expand { tid: 0, input: (k + i) as u32 });
+    }
+    World { seed: ws, backend, build: Build::Plain, faults: F_HISTORY, control: false, items, texts, classes, hosts: vec![reference, ultra] }
 }
 
 pub fn plan_world(ws: u64, corpus: &Corpus, o: &PlanOpts) -> World {
@@ -616,7 +736,7 @@ pub fn plan_world(ws: u64, corpus: &Corpus, o: &PlanOpts) -> World {
             cfg.entropy_seed = 1 + rng.next_u64() % 0xFFFF_FFFF;
         }
         if f & F_ENV != 0 {
-            cfg.env = plan_env(&mut rng, &o.feedback);
+            cfg.env = plan_env(&mut rng, &o.feedback, &corpus.dict_env);
         }
         if f & F_CLOCK != 0 {
             cfg.clock_epoch_ns = (rng.next_u64() % 4_000_000_000_000_000_000) as i64;
@@ -633,6 +753,8 @@ pub fn plan_world(ws: u64, corpus: &Corpus, o: &PlanOpts) -> World {
             for _ in 0..n {
                 if rng.chance(1, 6) {
                     cfg.argv.push(format!("--sim-arg={}", rng.next_u64() % 1000));
+                } else if !corpus.dict_argv.is_empty() && rng.chance(1, 3) {
+                    cfg.argv.push(rng.pick(&corpus.dict_argv).clone());
                 } else {
                     cfg.argv.push(rng.pick(&ARGV_POOL).to_string());
                 }
